@@ -150,6 +150,35 @@ func runView(c decCase, w *Writer) {
 		})
 		e["res"], e["n"], e["ids"], e["vals"], e["marshal"], e["size"], e["mton"], e["mto"] =
 			outcome(r, err), n, ids, vals, ints(mb), size, mn, ints(dst)
+		// the same block decoded by a view of the same kind that has decoded ANOTHER well-formed block before and has
+		// answered every question about it (a view may keep derived data between calls)
+		priors := map[string][]byte{
+			"onebyte": {0xBE, 0xDE, 0, 2, 0x10, 0xAA, 0x21, 0xBB, 0xCC, 0, 0, 0},
+			"twobyte": {0x10, 0x00, 0, 2, 1, 1, 0xAA, 2, 2, 0xBB, 0xCC, 0},
+			"raw":     {0x12, 0x34, 0, 1, 1, 2, 3, 4},
+		}
+		used := map[string]rtp.HeaderExtension{"onebyte": &rtp.OneByteHeaderExtension{}, "twobyte": &rtp.TwoByteHeaderExtension{}, "raw": &rtp.RawExtension{}}[name]
+		uids, uvals := []int{}, [][]int{}
+		var umb []byte
+		var uerr error
+		ur, _ := guard(func() {
+			if _, e0 := used.Unmarshal(priors[name]); e0 == nil {
+				for _, id := range used.GetIDs() {
+					_ = used.Get(id)
+				}
+				_, _ = used.Marshal()
+				_ = used.MarshalSize()
+			}
+			if _, uerr = used.Unmarshal(cloneBytes(block)); uerr != nil {
+				return
+			}
+			for _, id := range used.GetIDs() {
+				uids = append(uids, int(id))
+				uvals = append(uvals, ints(used.Get(id)))
+			}
+			umb, _ = used.Marshal()
+		})
+		e["used_res"], e["used_ids"], e["used_vals"], e["used_marshal"] = outcome(ur, uerr), uids, uvals, ints(umb)
 		w.Emit(e)
 	}
 }
